@@ -64,3 +64,11 @@ Definition state_refusal (w : why) : bool :=
   | WAlreadyAuth | WMustAuth | WMustSelect => true
   | _ => false
   end.
+
+(* a command the server refuses to execute: wrong state, or not a well-formed
+   built-in command at all (InvalidCommand) *)
+Definition refusal_why (w : why) : bool :=
+  match w with
+  | WAlreadyAuth | WMustAuth | WMustSelect | WInvalid => true
+  | _ => false
+  end.
